@@ -33,6 +33,11 @@ def main(tier):
             continue
         key = 'c03:%s:%s' % (kind, fn) + (':' + msg if kind in ('error-set-twice', 'stderr-output', 'error-with-value') and msg else '')
         ck.violation(key, '%s in %s (%d calls)' % (kind, fn, v['count']), dict(call=v['witness'], config=v['config'], count=v['count']))
+    # legitimate zeros of an intermediate are not failures: the roots of f'(E), located at run time, and the doubles around them
+    from . import c06
+    from .. import execlib, xl
+    rp = dict(calls=0, classes=set())
+    c06.root_probe(ck, execlib.Lib('shipped'), xl.XL('shipped'), rp, tier)
     # what the shared library exports is what a host program can call - and what its own symbols can pre-empt: every exported function is
     # either declared in a public header (and therefore swept above) or one of the helper entry points the bindings are known to use
     import json, subprocess, os
@@ -61,7 +66,7 @@ def main(tier):
                     'distinct = (function, error code, normalised message) return paths driven + functions with a success path driven',
                samples=samples, functions=len(fns), functions_with_success=ok_fns, error_paths=len(paths),
                successful_calls=tot['ok'], failing_calls=tot['err'], budget_per_function=budget,
-               configs=['shipped', 'kissel'], flavours=flavours, allocation_failpoints=fr['summary'], exported_symbols=len(exported),
+               configs=['shipped', 'kissel'], flavours=flavours, allocation_failpoints=fr['summary'], exported_symbols=len(exported), root_of_Fi_probe=rp.get('root_probe'),
                per_function={k: v for k, v in sorted(fns.items())})
     return ck.finish(cov, ['inline monitor in harness/mon_sweep.c; result classes (POSITIVE/NONNEG/ANY) from xv/sigtab.py',
                            'gcc, glibc'])
